@@ -217,6 +217,7 @@ func (m *Manager) manageReader() {
 	var pkt drpcwire.Packet
 	var err error
 	var run int
+	var invoked uint64 // stream id of the last invoke forwarded
 
 	for !m.sigs.term.IsSet() {
 		// if we have a run of "small" packets, drop the buffer to release
@@ -262,6 +263,9 @@ func (m *Manager) manageReader() {
 			if curr != nil && !curr.IsTerminated() {
 				curr.Cancel(context.Canceled)
 			}
+			if pkt.Kind == drpcwire.KindInvoke {
+				invoked = pkt.ID.Stream
+			}
 
 			select {
 			case m.pkts <- pkt:
@@ -275,6 +279,13 @@ func (m *Manager) manageReader() {
 		// a new stream to be created and try again. like an invoke, we
 		// implicitly close any previous stream.
 		default:
+			// if no invoke has announced the stream, it will never be
+			// created (for example, a cancel for a stream whose invoke was
+			// never sent), so drop the packet instead of waiting forever.
+			if pkt.ID.Stream != invoked {
+				continue
+			}
+
 			if curr != nil && !curr.IsTerminated() {
 				curr.Cancel(context.Canceled)
 			}
